@@ -59,6 +59,21 @@ Theorem c05_impostor_blocks_until_lost : forall s x a i n,
 Proof. exact impostor_blocks_until_lost. Qed.
 Print Assumptions c05_impostor_blocks_until_lost.
 
+(* overlapping dials: the per-address dialer is shared by every DialPeer(_, a)
+   in flight, whoever created it; for every interleaving of calls (any requested
+   peers), completions and losses, a call that reports a link got a link to the
+   peer IT asked for *)
+Theorem c05_shared_dialer_safe : forall a es i p x,
+  In (i, DLink p) (c_res (crun a es)) -> requested es i = Some x -> x <> 0 -> p = x.
+Proof. exact shared_dialer_safe. Qed.
+Print Assumptions c05_shared_dialer_safe.
+
+Example c05_shared_nonvacuous :
+  (* call 0 asks for peer 3, call 1 joins its dialer asking for peer 2, peer 3 answers *)
+  c_res (crun 1 [Call 3; Call 2; Answer (Peer 3)]) = [(0%nat, DLink 3); (1%nat, DErr)]
+  /\ c_res (crun 1 [Call 3; Call 2; Answer (Peer 2)]) = [(0%nat, DErr); (1%nat, DLink 2)].
+Proof. split; reflexivity. Qed.
+
 (* non-vacuity: impostor 3 answers twice, nobody, its link is lost, then x = 2 *)
 Example c05_nonvacuous :
   dialer_loop [] 2 1 [Attempt (Peer 3); Attempt (Peer 3); Attempt Nobody; Drop; Attempt (Peer 2)]
